@@ -328,6 +328,16 @@ def main(argv=None):
         print('UNDECIDED %s (%s)' % (o['name'], r['output'].replace('\n', ' | ')[:200]))
     if (undecided or limits) and exit_code == 0:
         exit_code = 2 if undecided and not limits else 3
+    # ---- a function the engine could not follow (tool limit): its replay builder still runs on the real code as a bounded stand-in
+    for g in limits:
+        c = core.CONTRACTS.get(g['contract'])
+        if c is None or not c.replay or prop not in c.props: continue
+        fake_ob = {'name': '%s/%s/tool-limit-fallback' % (prop, c.name), 'func': c.name, 'observe': [], 'trace': ['engine tool limit: ' + g['tool_limit'][:200]], 'kind': 'fallback'}
+        rp, doc = run_replay(core, prop, fake_ob, {'output': '', 'file': None, 'solver': 'none (tool limit; bounded replay scenarios on the real code)'}, outdir)
+        if doc.get('reproduced'):
+            print('bounded replay of %s (engine tool limit) failed on the real code: %s' % (c.name, str(doc.get('detail'))[:400]))
+            print('VIOLATION property=%s replay=%s' % (prop, rp))
+            exit_code = 1
     # ---- bounded stand-ins
     bounded = []
     if not args.no_bounded and cfg.get('bounded'):
